@@ -1242,7 +1242,7 @@ func (root *Root) AddEvent(id string, event interface{}) (cnt int, err error) {
 	root.subLock.Lock()
 	for _, s := range root.subscriptions {
 		if s.sub.Match(id) {
-			result, ea2 := root.resolve(event, vars, s.field, s.field.ConType, MaxResolveDepth)
+			result, ea2 := root.resolve(event, vars, s.field, s.ftype, MaxResolveDepth)
 			ea = append(ea, ea2...)
 			cnt++
 			if err = s.sub.Send(result); err != nil {
